@@ -548,6 +548,7 @@ func (u *Upgrade) failRelease(rel *release.Release, created kube.ResourceList, e
 			rollin.WaitStrategy = kube.StatusWatcherStrategy
 		}
 		rollin.WaitForJobs = u.WaitForJobs
+		rollin.MaxHistory = u.MaxHistory
 		rollin.DisableHooks = u.DisableHooks
 		rollin.Recreate = u.Recreate
 		rollin.Force = u.Force
